@@ -53,6 +53,8 @@ def build_program(nodes, edges):
     for i, n in enumerate(nodes):
         out = [e for e in edges if e["src"] == i and not e.get("implicit")]
         at = [f'#[serde(rename = "{n["name"]}Renamed")]'] if n.get("renamed") else []
+        if n.get("rust_name"):          # a twin: another item with the same Rust identifier, in a module of its own, told apart by its rename
+            at = [f'#[serde(rename = "{n["name"]}")]']
         k = n["kind"]
         if k == "generic_struct":
             items.append({"kind": "struct", "name": n["name"], "generics": ["T"], "fields": [{"name": "v", "ty": "T"}]})
@@ -80,6 +82,9 @@ def build_program(nodes, edges):
             items.append({"kind": "const", "name": n["name"], "ty": t, "value": "1"})
         else:
             raise ValueError(k)
+        if n.get("rust_name"):
+            items[-1]["name"] = n["rust_name"]
+            items[-1]["module"] = "v2"
     return items, nodes, edges
 
 
@@ -273,6 +278,11 @@ def run(chk):
         p = c["prog"]
         nodes = [{"name": "Aaa1", "kind": akind[p["carrier"]], "renamed": False},
                  {"name": {"upper": "Bbb2", "lower_snake": "bbb_t", "underscore": "_Bbb"}[p.get("bname", "upper")], "kind": p["bkind"], "renamed": p["renamed"]}]
+        if p.get("twin"):
+            # two more items that share a Rust identifier (Ccc3 and v2::Ccc3 renamed Ccc3Twin); nothing refers to them, so which of
+            # the two a bare `Ccc3` would designate (C09's business) plays no part
+            nodes.append({"name": "Ccc3", "kind": p["bkind"], "renamed": False})
+            nodes.append({"name": "Ccc3Twin", "rust_name": "Ccc3", "kind": p["bkind"], "renamed": False})
         programs.append((nodes, [{"src": 0, "dst": 1, "carrier": p["carrier"], "wrapper": p["wrapper"], "ovr": p["ovr"]}], c["collected"]))
         predicted_missed += 0 if c["collected"] else 1
     chk.extra["model_predicts_uncollected_placements"] = predicted_missed
